@@ -426,7 +426,7 @@ func (f Slice) startEndStep(size int) (start, end, step int) {
 	return
 }
 
-func (f Slice) locate(pp Expr, data any, rest Expr, max int) (locs []Expr) {
+func (f Slice) locate(pp Expr, data any, rest Expr, max int, root any) (locs []Expr) {
 	switch td := data.(type) {
 	case []any:
 		start, end, step := f.startEndStep(len(td))
@@ -445,7 +445,7 @@ func (f Slice) locate(pp Expr, data any, rest Expr, max int) (locs []Expr) {
 				cp := append(pp, nil) // place holder
 				for i := start; i < end; i += step {
 					cp[len(pp)] = Nth(i)
-					locs = locateContinueFrag(locs, cp, td[i], rest, max)
+					locs = locateContinueFrag(locs, cp, td[i], rest, max, root)
 					if 0 < max && max <= len(locs) {
 						break
 					}
@@ -463,7 +463,7 @@ func (f Slice) locate(pp Expr, data any, rest Expr, max int) (locs []Expr) {
 				cp := append(pp, nil) // place holder
 				for i := start; end < i; i += step {
 					cp[len(pp)] = Nth(i)
-					locs = locateContinueFrag(locs, cp, td[i], rest, max)
+					locs = locateContinueFrag(locs, cp, td[i], rest, max, root)
 					if 0 < max && max <= len(locs) {
 						break
 					}
@@ -487,7 +487,7 @@ func (f Slice) locate(pp Expr, data any, rest Expr, max int) (locs []Expr) {
 				cp := append(pp, nil) // place holder
 				for i := start; i < end; i += step {
 					cp[len(pp)] = Nth(i)
-					locs = locateContinueFrag(locs, cp, td[i], rest, max)
+					locs = locateContinueFrag(locs, cp, td[i], rest, max, root)
 					if 0 < max && max <= len(locs) {
 						break
 					}
@@ -505,7 +505,7 @@ func (f Slice) locate(pp Expr, data any, rest Expr, max int) (locs []Expr) {
 				cp := append(pp, nil) // place holder
 				for i := start; end < i; i += step {
 					cp[len(pp)] = Nth(i)
-					locs = locateContinueFrag(locs, cp, td[i], rest, max)
+					locs = locateContinueFrag(locs, cp, td[i], rest, max, root)
 					if 0 < max && max <= len(locs) {
 						break
 					}
@@ -529,7 +529,7 @@ func (f Slice) locate(pp Expr, data any, rest Expr, max int) (locs []Expr) {
 				cp := append(pp, nil) // place holder
 				for i := start; i < end; i += step {
 					cp[len(pp)] = Nth(i)
-					locs = locateContinueFrag(locs, cp, td.ValueAtIndex(i), rest, max)
+					locs = locateContinueFrag(locs, cp, td.ValueAtIndex(i), rest, max, root)
 					if 0 < max && max <= len(locs) {
 						break
 					}
@@ -547,7 +547,7 @@ func (f Slice) locate(pp Expr, data any, rest Expr, max int) (locs []Expr) {
 				cp := append(pp, nil) // place holder
 				for i := start; end < i; i += step {
 					cp[len(pp)] = Nth(i)
-					locs = locateContinueFrag(locs, cp, td.ValueAtIndex(i), rest, max)
+					locs = locateContinueFrag(locs, cp, td.ValueAtIndex(i), rest, max, root)
 					if 0 < max && max <= len(locs) {
 						break
 					}
@@ -582,7 +582,7 @@ func (f Slice) locate(pp Expr, data any, rest Expr, max int) (locs []Expr) {
 						cp[len(pp)] = Nth(i)
 						rv := rd.Index(i)
 						if rv.CanInterface() {
-							locs = locateContinueFrag(locs, cp, rv.Interface(), rest, max)
+							locs = locateContinueFrag(locs, cp, rv.Interface(), rest, max, root)
 							if 0 < max && max <= len(locs) {
 								break
 							}
@@ -606,7 +606,7 @@ func (f Slice) locate(pp Expr, data any, rest Expr, max int) (locs []Expr) {
 						cp[len(pp)] = Nth(i)
 						rv := rd.Index(i)
 						if rv.CanInterface() {
-							locs = locateContinueFrag(locs, cp, rv.Interface(), rest, max)
+							locs = locateContinueFrag(locs, cp, rv.Interface(), rest, max, root)
 							if 0 < max && max <= len(locs) {
 								break
 							}
